@@ -130,8 +130,8 @@ def geomcomp_map(t4):
     return m
 
 
-def check_state(scn, st, corrupt=False):
-    r = env.run(st.deck_text, st.options)
+def check_state(scn, st, corrupt=False, result=None):
+    r = result if result is not None else env.run(st.deck_text, st.options)
     if not r.ok:
         return verdict(False, st, cls={'kind': 'exception', 'exc': r.exc_type},
                        msg='conversion failed: %s\n%s' % (r.brief(), st.deck_text), out='err:' + r.exc_type)
